@@ -8,6 +8,8 @@ cells), in every build configuration.
 from ..astq import AstDB
 from ..engines import e3_tables as e3
 from ..engines import e9_safety as e9
+from ..engines import e2_state as e2
+from ..extract import AnalysisBroken
 
 LEVEL = "other"
 
@@ -25,6 +27,11 @@ def run(chk):
         e3.table_insertion_wind(db, chk, cfg)
         e3.table_crossing_dispatch(db, chk, cfg)
         e9.rule_int64_product(db, chk, cfg)
+        from .c12 import _public_methods
+        for cls in (["ClipperBase", "Clipper64"], ["ClipperBase", "ClipperD"]):
+            eng = e2.E2(db, chk, cfg, cls)
+            if e2.rule_sorted_flag(eng, chk, cfg, _public_methods(db, set(cls))) < 6:
+                raise AnalysisBroken("SORTED.invalidate: fewer than 6 instances")
     chk.rule("T.wind-crossing", "the winding-count update of IntersectEdges equals the definition (crossing an edge left-to-right adds its "
              "wind_dx; wind_cnt is the side farther from zero; wind_cnt2 is the other type's region winding), for same-type and cross-type "
              "crossings, EvenOdd and the three signed rules, all direction pairs, every reachable winding cell")
@@ -36,6 +43,8 @@ def run(chk):
              "its updated counts")
     chk.rule("INT64.product", "no product is formed in a signed 64-bit integer type: C01 holds for coordinates up to 2^61, where any product of "
              "two coordinate differences wraps (TopX, intersection points and orientation tests work in double or 128-bit arithmetic)")
+    chk.rule("SORTED.invalidate", "the sweep pops local minima from a list it assumes sorted: every public method that may modify minima_list_ writes "
+             "minima_list_sorted_ on every path, and the flag becomes true only right after a sort (E2 summaries)")
     chk.floor("T.cross-dispatch", 11000 * len(cfgs))
     chk.floor("T.closed", 1300 * len(cfgs))
     chk.floor("T.wind-crossing", 14000 * len(cfgs))
